@@ -19,7 +19,7 @@ RULE = ("hostile connections: one hostile item (a mutated message or garbage) se
         "stall; items = every header field at boundary values, every length field inconsistent with the bytes that follow, every prefix truncation of a "
         "valid CONNECT and INVOKE, annotation-chunk corruption, payloads of the wrong shape, COMPRESSED flag on non-zlib data, nests 150/1100 deep, random "
         "bytes, calls to unknown objects/members and to methods raising unserialisable / str-less / local / huge exceptions; x {thread, thread with a "
-        "3-worker pool (refusal path), multiplex} x COMMTIMEOUT {0, 0.3s}; interleaved with 2 witness clients. distinct = hash of (phase, bytes sent, ending, "
+        "3-worker pool (refusal path), multiplex} x COMMTIMEOUT {0, 0.6s}; interleaved with 2 witness clients. distinct = hash of (phase, bytes sent, ending, "
         "config); non-trivial = the server had to parse at least a header")
 ASSUMPTIONS = ["a peer that stalls forever mid-message on the single-threaded multiplex server without a timeout is documented behaviour; hostile clients always close (after <=50 ms)",
                "'still accepts / keeps receiving' = within a 10 s watchdog after the last hostile socket is closed",
@@ -248,11 +248,22 @@ class Witness(threading.Thread):
                     got = p.echo(tok)
                 except P.errors.CommunicationError as x:
                     ct = P.config.COMMTIMEOUT
-                    if ct and (t_send - last_reply) > 0.5 * ct:
-                        # this witness itself was idle for a large part of the server's COMMTIMEOUT (descheduled on a loaded machine):
-                        # the server may legitimately have timed the idle connection out. Not a verdict; reconnect and go on.
+                    if ct and (t_send - last_reply) > 0.25 * ct:
+                        # this witness itself was idle for a good part of the server's COMMTIMEOUT (descheduled on a loaded machine; the server's
+                        # own clock started even earlier): the server may legitimately have timed the idle connection out. Not a verdict.
+                        # It is no longer a client that "was connected all along": it reconnects like any new client, which a full pool may
+                        # refuse for a while ("no free workers" is a correct answer then)
                         self.idle_timeouts += 1
-                        p._pyroBind()
+                        end = time.monotonic() + 20
+                        while True:
+                            try:
+                                p._pyroRelease()
+                                p._pyroBind()
+                                break
+                            except P.errors.CommunicationError as x2:
+                                if "no free workers" not in str(x2) or time.monotonic() > end:
+                                    raise
+                                time.sleep(0.05)
                         conn = p._pyroConnection
                         last_reply = time.monotonic()
                         continue
@@ -429,7 +440,7 @@ def run_config(P, cfg, rec, r, n_items):
 def plan(tier, seed):
     cfgs = []
     for st, pool in (("thread", 40), ("thread", 3), ("multiplex", 40)):
-        for ct in (0.0, 0.3):
+        for ct in (0.0, 0.6):
             cfgs.append({"servertype": st, "pool": pool, "commtimeout": ct})
     # the same attack with seeded yield injection into the thread server's pool / connection code: hostile connections that are refused at once
     # make workers finish while new connections are being accepted
